@@ -71,23 +71,11 @@ def oracle(case, ctx):
         # either one-sided derivative is acceptable, and autodiff's own tie convention (e.g. gradient 1/2 of
         # jnp.clip at its bound) is not the truth.  Re-evaluate the autodiff Jacobian with the tied
         # coordinates displaced by +-delta (every sign pattern, <= 16) and accept any match.
-        import itertools
-        xf = np.asarray(x, bd.FDT).reshape(-1)
-        pool = set(float(v) for v in s.pool) | {0.0, 1.0, -1.0}
-        tied = [i for i, v in enumerate(xf) if float(v) in pool][:4]
-        ok, tol_k = False, tol + 1e-5 * (1 + abs(ld))
-        delta = (1e-9 if not bd.shim.F32 else 1e-4) * (1 + np.abs(xf))
-        for signs in itertools.product((1.0, -1.0), repeat=len(tied)):
-            if not tied:
-                break
-            xn = xf.copy()
-            for i, sg in zip(tied, signs):
-                xn[i] = xf[i] + sg * delta[i]
-            xn = xn.reshape(np.shape(x))
+        def _ld_at(xn):
+            xn = np.asarray(xn, bd.FDT)
             Jn = bc.jac(obj, xn, s.c, fwd_dir) if not s.numinv else bc.jac_transform(s, xn)
-            if np.all(np.isfinite(Jn)) and abs(ld - _slogdet(Jn)[0]) <= tol_k:
-                ok = True
-                break
+            return _slogdet(Jn)[0] if np.all(np.isfinite(Jn)) else np.inf
+        ok = bc.kink_match(_ld_at, x, s.pool, ld, tol + 1e-5 * (1 + abs(ld)), 1e-8 if not bd.shim.F32 else 1e-4)
         if ok:
             ctx.hist("kink_one_sided", s.name)
             err = 0.0
